@@ -413,6 +413,17 @@ pub enum RenamedEnum {
 }
 fam!(RenamedEnum, "enum RenamedEnum(escaped names)", vec![RenamedEnum::V { f: 1 }, RenamedEnum::T(2, true), RenamedEnum::N("s".into()), RenamedEnum::U]);
 
+/// map keys that are newtype structs around scalars
+#[derive(Serialize, Deserialize, PartialEq, Eq, PartialOrd, Ord, Debug, Clone, Copy)]
+pub struct KeyId(pub u64);
+#[derive(Serialize, Deserialize, PartialEq, Eq, PartialOrd, Ord, Debug, Clone, Copy)]
+pub struct KeyFlag(pub bool);
+#[derive(Serialize, Deserialize, PartialEq, Eq, PartialOrd, Ord, Debug, Clone)]
+pub struct KeyName(pub String);
+fam!(BTreeMap<KeyId, Vec<u8>>, "BTreeMap<KeyId(u64),Vec<u8>>", vec![bm(vec![]), bm(vec![(KeyId(7), vec![1, 2]), (KeyId(u64::MAX), vec![])])]);
+fam!(BTreeMap<KeyFlag, u8>, "BTreeMap<KeyFlag(bool),u8>", vec![bm(vec![(KeyFlag(true), 3)]), bm(vec![(KeyFlag(false), 0), (KeyFlag(true), 1)])]);
+fam!(BTreeMap<KeyName, i8>, "BTreeMap<KeyName(String),i8>", vec![bm(vec![(KeyName("a\"b".into()), -1)]), bm(vec![(KeyName("".into()), 0), (KeyName("k".into()), 1)])]);
+
 fam!(Box<[u8]>, "Box<[u8]>", vec![vec![].into_boxed_slice(), vec![0u8, 255].into_boxed_slice()], deep seqs(&[0u8, 34, 92, 255], 4).into_iter().map(|b| b.into_boxed_slice()).collect::<Vec<_>>());
 
 fam!(serde_json::Value, "serde_json::Value", vec![
@@ -478,6 +489,9 @@ macro_rules! for_each_fam {
         $m!($crate::types::Untagged);
         $m!($crate::types::Flat);
         $m!($crate::types::Bytes1);
+        $m!(std::collections::BTreeMap<$crate::types::KeyId, Vec<u8>>);
+        $m!(std::collections::BTreeMap<$crate::types::KeyFlag, u8>);
+        $m!(std::collections::BTreeMap<$crate::types::KeyName, i8>);
         $m!($crate::types::Renamed);
         $m!($crate::types::RenamedEnum);
         $m!(Box<[u8]>);
